@@ -72,13 +72,23 @@ def run(rep, tier, seed, replay=None):
                 bases.append(b)
                 have |= new_units
         units_desc.append(f"{fam}: units {sorted(have)} over {len(bases)} bases")
+        # units whose scripts are long (a reply of several datagrams delivered again and again): at most so many bases each
+        cap = getattr(fmod, "C10_BASE_CAP", {})
+        capped = {}
         for bi, b in enumerate(bases):
+            units_here = []
+            for unit in fmod.c10_units(b):
+                if unit in cap:
+                    if capped.get(unit, 0) >= cap[unit]:
+                        continue
+                    capped[unit] = capped.get(unit, 0) + 1
+                units_here.append(unit)
             for r in range(4):
                 vs = vectors(r)
                 if tier == "quick":
                     keep = [v for v in vs if "M" not in v]
                     vs = keep + rnd.sample([v for v in vs if "M" in v], min(12, len([v for v in vs if "M" in v])))
-                for unit in fmod.c10_units(b):
+                for unit in units_here:
                     for v in vs:
                         cid = f"{b.id}u{unit}r{r}{v}"
                         cases.append(fmod.c10_build(b, unit, v, r, cid))
